@@ -71,10 +71,16 @@ def strip_comments(src):
     return "".join(out)
 
 
-def audit_sources():
-    """grep every .v of the development for forbidden vernacular; Variable/Hypothesis only inside sections"""
+def cone(files):
+    """the given .v files and everything they depend on inside the development (coqdep -sort)"""
+    rc, out = run(["coqdep", "-Q", ".", "PV", "-sort"] + files, cwd=COQ)
+    return [COQ / f for f in out.split() if f.endswith(".v") and (COQ / f).exists()]
+
+
+def audit_sources(files):
+    """grep the property's cone for forbidden vernacular; Variable/Hypothesis only inside sections"""
     problems = []
-    for f in sorted(COQ.rglob("*.v")):
+    for f in cone(files):
         src = strip_comments(f.read_text())
         for pat in FORBIDDEN:
             for m in re.finditer(pat, src):
@@ -95,6 +101,10 @@ def coq_makefile():
     with Lock("coq"):
         mk = COQ / "Makefile"
         cp = COQ / "_CoqProject"
+        files = sorted(str(f.relative_to(COQ)) for d in ["Base", "Model", "Proofs", "Props", "Gen"] for f in (COQ / d).rglob("*.v"))
+        want = "-Q . PV\n" + "\n".join(files) + "\n"
+        if not cp.exists() or cp.read_text() != want:
+            cp.write_text(want)
         if not mk.exists() or mk.stat().st_mtime < cp.stat().st_mtime:
             rc, out = run(["coq_makefile", "-f", "_CoqProject", "-o", "Makefile"], cwd=COQ)
             if rc != 0:
@@ -159,18 +169,18 @@ def build_driver(prop):
     return d / "drv"
 
 
-def build_harness(profile="release"):
+def build_harness(prop, profile="release"):
     """rebuild the harness from /repo's working tree (cargo decides what changed)"""
     for f in ["Cargo.lock", "rust-toolchain.toml"]:
         src, dst = Path("/repo") / f, HARNESS / f
         if src.exists() and (not dst.exists() or src.read_bytes() != dst.read_bytes()):
             shutil.copy(src, dst)
-    cmd = ["cargo", "build", "--offline", "--features", "avx"] + (["--release"] if profile == "release" else [])
+    cmd = ["cargo", "build", "--offline", "--features", "avx", "--bin", prop.lower()] + (["--release"] if profile == "release" else [])
     with Lock("cargo"):
         rc, out = run(cmd, cwd=HARNESS, timeout=3000)
     if rc != 0:
         return None, out
-    return HARNESS / "target" / ("release" if profile == "release" else "debug") / "poulpy-verif-harness", out
+    return HARNESS / "target" / ("release" if profile == "release" else "debug") / prop.lower(), out
 
 
 def parse_verdicts(text):
@@ -201,14 +211,14 @@ class Ctx:
 
     def harness_gen(self, binpath, tier, seed, tag=""):
         out = self.work / f"records{tag}.txt"
-        rc, log = run([str(binpath), "gen", self.low, tier, str(seed), str(out)], timeout=3000)
+        rc, log = run([str(binpath), "gen", tier, str(seed), str(out)], timeout=3000)
         if rc != 0:
             raise RuntimeError(f"harness gen failed ({rc}):\n{log[-3000:]}")
         return out
 
     def harness_exec(self, binpath, inp, tag="_replay"):
         out = self.work / f"records{tag}.txt"
-        rc, log = run([str(binpath), "exec", self.low, str(inp), str(out)], timeout=3000)
+        rc, log = run([str(binpath), "exec", str(inp), str(out)], timeout=3000)
         if rc != 0:
             raise RuntimeError(f"harness exec failed ({rc}):\n{log[-3000:]}")
         return out
@@ -259,7 +269,7 @@ def generic_check(prop, tier, seed, cfg, replay=None):
         m = re.findall(r'File "\./([^"]+)", line (\d+)', log)
         where = f"{m[-1][0]}:{m[-1][1]}" if m else "unknown"
         proof_broken.append({"where": where, "log_tail": log[-2500:]})
-    problems = audit_sources()
+    problems = audit_sources([cfg.PROPS_VO[:-1], f"Extract/Extract{prop}.v"] + [x[:-1] for x in getattr(cfg, "EXTRA_VO", [])])
     if problems:
         proof_broken.append({"where": "audit", "log_tail": "\n".join(problems)})
     theorems = []
@@ -287,7 +297,7 @@ def generic_check(prop, tier, seed, cfg, replay=None):
         drv = build_driver(prop)
         builds = getattr(cfg, "PROFILES", ["release"])
         for prof in builds:
-            binp, blog = build_harness(prof)
+            binp, blog = build_harness(prop, prof)
             if binp is None:
                 raise RuntimeError("harness build failed (the repository no longer compiles against the harness):\n" + blog[-3000:])
             if replay:
